@@ -150,9 +150,42 @@ def run_keyed(case: dict[str, Any]) -> dict[str, Any]:
         core.end()
 
 
+def gen_recreate_vs_close(rng: Any) -> dict[str, Any]:
+    """One session drops and re-creates its commented table while other sessions of the same database come and go:
+    connect() and close() of a bystander must not touch what the first one has just declared."""
+    k = rng.choice([2, 2, 2, 3])
+    ops: list[dict[str, Any]] = []
+    uid = rng.randint(100, 900)
+    ops.append({"s": "s0", "k": "connect", "database": DB, "schema": "SC0", "tag": "connect"})
+    t = f"{DB}.SC0.T"
+    ops.append({"s": "s0", "k": "exec", "tag": "create_own", "t": t, "comment": f"c{uid}", "sql": f"CREATE TABLE T (id int, v varchar(10)) COMMENT = 'c{uid}'"})
+    for r in range(rng.choice([1, 1, 1, 2])):
+        ops.append({"s": "s0", "k": "exec", "tag": "drop_own", "t": t, "sql": "DROP TABLE T"})
+        ops.append({"s": "s0", "k": "exec", "tag": "create_own", "t": t, "comment": f"c{uid + r + 1}", "sql": f"CREATE TABLE T (id int, v varchar(10)) COMMENT = 'c{uid + r + 1}'"})
+    ops.append({"s": "s0", "k": "exec", "tag": "meta_all", "sql": f"SELECT table_schema, table_name, comment FROM {DB}.information_schema.tables WHERE table_name LIKE 'T%' AND table_schema LIKE 'SC%'"})
+    for i in range(1, k):
+        sid = f"s{i}"
+        ops.append({"s": sid, "k": "connect", "database": DB, "schema": f"SC{i}", "tag": "connect"})
+        if rng.random() < 0.5:
+            ops.append({"s": sid, "k": "exec", "tag": "ctxq", "schema": f"SC{i}", "sql": "SELECT CURRENT_DATABASE(), CURRENT_SCHEMA()"})
+        ops.append({"s": sid, "k": "close", "tag": "close"})
+    return {
+        "profile": NAME,
+        "config": {"k": k, "own_schema": True, "pre": "none", "hazards": {"half_meta": False, "half_merge": False}, "scenario": "recreate-vs-close"},
+        "strategy": rng.choice(["random", "pct", "pct", "pct"]),
+        "pct_depth": rng.choice([2, 2, 3]),
+        "pct_horizon": 4 * len(ops) + 12 * k,
+        "sched_seed": rng.getrandbits(48),
+        "ops": ops,
+    }
+
+
 def gen(rng: Any, prop: str, tier: str) -> dict[str, Any]:
-    if rng.random() < 0.1:
+    r0 = rng.random()
+    if r0 < 0.1:
         return gen_keyed(rng)
+    if r0 < 0.2:
+        return gen_recreate_vs_close(rng)
     k = rng.choice([2, 2, 2, 3] + ([3, 4] if tier == "thorough" else []))  # deeper bound in the thorough tier
     # known-hazard switches (DESIGN.md section 4): off in ~85 % of runs so that model and system stay in lock-step
     hazards = {"half_meta": rng.random() < 0.15, "half_merge": rng.random() < 0.15}
@@ -200,6 +233,13 @@ def gen(rng: Any, prop: str, tier: str) -> dict[str, Any]:
                 kind = "create_own"
             if kind == "create_own" and have_own:
                 kind = "ins_own"
+            if kind == "ins_own" and have_own and rng.random() < 0.2:
+                # the own table is dropped and made again under the same name (its side-table rows are stale in between)
+                ops.append({"s": sid, "k": "exec", "tag": "drop_own", "t": f"{DB}.{schema}.{tname}", "sql": f"DROP TABLE {tname}"})
+                comment = f"c{fresh()}_{sid}" if use_comment else None
+                ops.append({"s": sid, "k": "exec", "tag": "create_own", "t": f"{DB}.{schema}.{tname}", "comment": comment,
+                            "sql": f"CREATE TABLE {tname} (id int, v varchar(10))" + (f" COMMENT = '{comment}'" if comment else "")})
+                continue
             if kind == "create_own":
                 comment = f"c_{sid}" if use_comment else None
                 ops.append({"s": sid, "k": "exec", "tag": "create_own", "t": f"{DB}.{schema}.{tname}", "comment": comment,
@@ -240,6 +280,8 @@ def gen(rng: Any, prop: str, tier: str) -> dict[str, Any]:
                     ops.append({"s": sid, "k": "exec", "tag": "usevar", "sql": "SELECT $myvar"})
             elif kind == "ctxq":
                 ops.append({"s": sid, "k": "exec", "tag": "ctxq", "schema": schema, "sql": "SELECT CURRENT_DATABASE(), CURRENT_SCHEMA()"})
+        if rng.random() < 0.3:
+            ops.append({"s": sid, "k": "close", "tag": "close"})  # a session ends while the others go on
     strat = rng.choices(["random", "pct", "targeted", "serial", "stall"], [28, 28, 18, 6, 20])[0]
     return {
         "profile": NAME,
@@ -289,6 +331,11 @@ def m_step(st: dict[str, Any], op: dict[str, Any]) -> tuple[dict[str, Any], Any]
     if tag == "create_own":
         st["tables"][op["t"]] = {"comment": op["comment"], "rows": {}}
         return st, [[f"Table {op['t'].split('.')[-1]} successfully created."]]
+    if tag == "drop_own":
+        st["tables"].pop(op["t"], None)
+        return st, [[f"{op['t'].split('.')[-1]} successfully dropped."]]
+    if tag == "close":
+        return st, None
     if tag == "ins_shared":
         for a, b in op["rows"]:
             st["tables"][shared]["rows"][str(a)] = b
